@@ -181,11 +181,35 @@ pub fn check(thorough: bool, _seed: u64) -> Check {
         classes: vec![("out_of_order_abscissa", false), ("sub_epsilon_step", false), ("strictly_increasing_with_gaps>=eps", false), ("step_of_exactly_eps_or_2eps", false)],
         bounds: json!({"knots": "n = 8,9,16,17,33,65,32768,40000 (also 10,32,64,129,257,1025,65537,100001 thorough) x 7 abscissa patterns (unit steps, repeated, periodic back steps, geometric, epsilon steps, periodic return to start, growing gaps) x offsets {0,-7.5,1e6} x 3 ordinate patterns"}),
     };
+    // forced widths on both sides of machine epsilon, to the last bit (the rule is "narrower than f64::EPSILON", not a
+    // rounded copy of it): abscissae near 0 and inside (-1,1), where such widths exist; the subtraction is exact there
+    let around_eps = Phase {
+        name: "widths-around-machine-epsilon",
+        units: 6,
+        split: 0,
+        body: Box::new(move |unit, cx| {
+            let a = [0.0, 1e-3, -1e-3, 1e-10, 0.0009765625, -3e-16][unit];
+            let e = f64::EPSILON;
+            let gaps = [exact::pred(e), exact::pred(exact::pred(e)), 2.2203e-16, 2.22e-16, 2.2204e-16, e * 0.999, e, exact::succ(e), 0.75 * e, 1.5 * e, 0.5 * e, 2.21e-16, 1.0000001 * e];
+            let g = gaps[cx.choose(gaps.len())];
+            let b = a + g;
+            let xs: Vec<f64> = match cx.choose(4) {
+                0 => vec![a, b],
+                1 => vec![a, b, 1.0],
+                2 => vec![-1.0, a, b],
+                _ => vec![-1.0, a, b, b + g, 2.0],
+            };
+            let ys: Vec<f64> = (0..xs.len()).map(|_| *cx.pick(&YS)).collect();
+            check_list(&xs, &ys, cx)
+        }),
+        classes: vec![("out_of_order_abscissa", false), ("sub_epsilon_step", true), ("strictly_increasing_with_gaps>=eps", true), ("step_of_exactly_eps_or_2eps", true)],
+        bounds: json!({"knots": "lists [a,a+g], [a,a+g,1], [-1,a,a+g], [-1,a,a+g,a+2g,2] with a in {0,1e-3,-1e-3,1e-10,2^-10,-3e-16} and g in {pred(EPS),pred(pred(EPS)),2.2203e-16,2.22e-16,2.2204e-16,0.999 EPS,EPS,succ(EPS),0.75 EPS,1.5 EPS,EPS/2,2.21e-16,1.0000001 EPS} x ordinates in {-1,0,2.5}^n"}),
+    };
     Check {
         id: "C06",
         rule: "choice tree: (length, first two abscissae) unit x remaining abscissae x ordinates; each leaf is one knot list run through the real linear() (and Piecewise::evaluate of its result); non-trivial = list with an out-of-order or sub-epsilon step".into(),
         assumptions: vec![],
-        phases: vec![ph, long],
+        phases: vec![ph, long, around_eps],
         extra: Default::default(),
         controls: vec![],
     }
